@@ -1,7 +1,12 @@
 //! Logic related to the Carrier, the component in charge or sending/requesting transaction data from/to `bitcoind`.
 
 use std::collections::HashMap;
+#[cfg(not(feature = "verif"))]
 use std::sync::{Arc, Condvar, Mutex};
+#[cfg(feature = "verif")]
+use std::sync::Arc;
+#[cfg(feature = "verif")]
+use crate::verif_sync::{Condvar, Mutex};
 
 use crate::responder::ConfirmationStatus;
 use crate::{errors, rpc_errors};
@@ -463,5 +468,19 @@ mod tests {
             (std::time::Instant::now() - before).as_secs(),
             delay.as_secs()
         );
+    }
+}
+
+#[cfg(feature = "verif")]
+impl Carrier {
+    /// Canonical rendering of the carrier state. Used by the verification harness.
+    pub fn verif_snapshot(&self) -> String {
+        let mut receipts: Vec<String> = self
+            .issued_receipts
+            .iter()
+            .map(|(k, v)| format!("{k}={v:?}"))
+            .collect();
+        receipts.sort();
+        format!("height={} receipts={receipts:?}", self.block_height)
     }
 }
